@@ -69,8 +69,42 @@ Post(ev) ==
     [] op = "pow_int" -> PostPowInt(Arg(a[1]), ZToInt(Zj(a[2])), p, r, o)
     [] op = "none" -> TRUE
 
+(*************************** C17 / C33: constants ***************************)
+(* "const": one request of a constant at precision p in mode r, with the     *)
+(* memo precision before/after (projected from the real memo), the answer    *)
+(* and the answer recomputed from an emptied memo.                           *)
+NewPrecReal(wp) == (wp * 105) \div 100 + 10
+ConstClauses(ev) ==
+  LET x == ev.x  wp == ev.p + 20
+  IN (IF x.ma # (IF wp <= x.mb THEN x.mb ELSE NewPrecReal(wp)) THEN {"memo"} ELSE {})
+     \cup (IF F(ev.o) # F(x.scratch) THEN {"history"} ELSE {})
+(* "const5": the five modes at one precision: d = f, u = c (positive          *)
+(* constant), f <= n <= c, and c is f or its successor at precision p.        *)
+Const5Clauses(ev) ==
+  LET n == F(ev.a[1])  f == F(ev.a[2])  c == F(ev.a[3])  d == F(ev.a[4])  u == F(ev.a[5])  p == ev.p
+      succ == RoundDy(DyAdd(Val(f), Dy(ZOne, f.e - (p - f.bc) - 1)), p, "c")    \* next p-bit number above f
+  IN (IF d # f \/ u # c THEN {"modes"} ELSE {})
+     \cup (IF ~(FCmp(f, n) <= 0 /\ FCmp(n, c) <= 0) THEN {"order"} ELSE {})
+     \cup (IF ~(c = f \/ c = succ) THEN {"adjacent"} ELSE {})
+     \cup (IF \E y \in {n, f, c} : ~(IsFin(y) /\ Canonical(y) /\ y.bc <= p) THEN {"shape"} ELSE {})
+(* "nest": floor/ceiling enclosures of one constant at increasing precisions  *)
+(* must be nested: there is one real number compatible with all of them.      *)
+NestClauses(ev) ==
+  LET xs == ev.a
+  IN IF \E i \in 1..(Len(xs) - 1) :
+          \/ FCmp(F(xs[i].v[1]), F(xs[i + 1].v[1])) > 0        \* lower bounds increase
+          \/ FCmp(F(xs[i].v[2]), F(xs[i + 1].v[2])) < 0        \* upper bounds decrease
+          \/ FCmp(F(xs[i + 1].v[1]), F(xs[i + 1].v[2])) > 0
+     THEN {"nested"} ELSE {}
+
+PostClauses(ev) ==
+  CASE ev.op = "const" -> ConstClauses(ev)
+    [] ev.op = "const5" -> Const5Clauses(ev)
+    [] ev.op = "nest" -> NestClauses(ev)
+    [] OTHER -> IF ~Post(ev) THEN {"post"} ELSE {}
+
 Clauses(ev) ==
-  (IF ~Post(ev) THEN {"post"} ELSE {})
+  PostClauses(ev)
   \cup (IF \E x \in Comps(ev.o) : ~Canonical(x) THEN {"canon"} ELSE {})
   \cup (IF ev.pb > 0 /\ \E x \in Comps(ev.o) : ~BitsLe(x, ev.pb) THEN {"bits"} ELSE {})
 =============================================================================
